@@ -816,6 +816,7 @@ static long slot_of(var table, const HVal* k) {
   return -1;
 }
 
+static size_t n_msg;
 /* executes the op on the real library; fills `res` with "ok[:value]"; returns the raised exception or NULL */
 static var do_call(var target, HObj* h, Op* op, char* res) {
   var exc = NULL; char val[300] = "";
@@ -855,7 +856,16 @@ static var do_call(var target, HObj* h, Op* op, char* res) {
       break; }
   }
   if (!exc) { if (val[0]) sprintf(res, "ok:%s", val); else strcpy(res, "ok"); }
-  else sprintf(res, "raised:%s", v_exc_name(exc));
+  else {
+    sprintf(res, "raised:%s", v_exc_name(exc));
+    /* the MESSAGE of an index / empty-pop refusal of a sequence (extension round): `current(Exception)->msg` as `exception_throw`
+       formatted it — the model renders the format and the arguments of the throw site extracted from the source */
+    if (exc == IndexOutOfBoundsError && h && !NEST(h) && (h->kind == K_ARR || h->kind == K_LST || h->kind == K_TUP)) {
+      struct Exception* e = current(Exception);
+      snprintf(res + strlen(res), 200, " msg=%s", e->msg ? c_str(e->msg) : "(null)");
+      n_msg++;
+    }
+  }
   return exc;
 }
 
@@ -1169,6 +1179,7 @@ int main(int argc, char** argv) {
     run_line(lines[li], (int)li + 1);
   }
   I("ops=%zu raised=%zu died-in-probe=%zu oracle-failures=%zu", n_ops, n_raised, n_crashed, n_x);
+  I("refusal-messages-compared=%zu", n_msg);
   for (int i = 0; i < 8; i++) if (exc_count[i]) I("exc %s=%zu", exc_names[i], exc_count[i]);
   return 0;
 }
